@@ -1513,8 +1513,13 @@ def m_stream_next(ex, st, args, dty, canon):
 
 
 def m_oneshot_send(ex, st, args, dty, canon):
-    st.trace.append(Event('env', 'reply', (args[0], args[1])))
-    return ok(UNIT)
+    """the reply is recorded; whether it could be delivered is the environment's choice (Err(value) when the
+    requester has dropped its receiving end) - the code must not depend on it"""
+    nm = 'ev%d' % len(st.trace)
+    st.trace.append(Event('env', 'reply', (args[0], args[1]), nm))
+    d = z3.Int(nm + '.delivered')
+    ex.axioms[nm + '.delivered'] = z3.And(d >= 0, d <= 1)
+    return models.sym_enum(d, {0: [UNIT], 1: [args[1]]}, 'Result')
 
 
 def poll2(ex, st, fv, fptr, cx, cont, out_ty=None):
